@@ -124,6 +124,12 @@ def annotate_fn(item_text, name, c):
             raise ScanError('ghost insert anchor %r in %s: %d matches' % (pat, name, len(hits)))
         at = hits[0].end() if ins.get('after') else hits[0].start()
         edits.append((body_open + at, '\n' + ghost(ins['text']) + '\n'))
+    for ins in c.get('inserts_all', []):
+        hits = [mm for mm in re.finditer(ins['after'], msk[body_open:])]
+        if len(hits) != ins['count']:
+            raise ScanError('ghost insert anchor %r in %s: %d matches, expected %d' % (ins['after'], name, len(hits), ins['count']))
+        for mm in hits:
+            edits.append((body_open + mm.end(), '\n' + ghost(ins['text']) + '\n'))
     out = item_text
     norm = []
     for e in edits:
@@ -301,7 +307,10 @@ def classify(res):
     if vr.get('encountered-vir-error') or (vr.get('encountered-error') and vr.get('errors', 0) == 0):
         return 'undecided', 'verus front-end error (unsupported construct / type error)'
     if 'rlimit' in res['stderr'].lower() and 'exceeded' in res['stderr'].lower():
-        return 'undecided', 'rlimit exceeded'
+        # a resource limit alone decides nothing; but obligations that failed outright next to it are still failures
+        real = [e for e in parse_errors(res['stderr']) if 'rlimit' not in e['msg'].lower() and 'aborting due to' not in e['msg']]
+        if not real:
+            return 'undecided', 'rlimit exceeded'
     if vr.get('success') and vr.get('errors', 1) == 0:
         return 'ok', ''
     return 'fail', ''
